@@ -5,6 +5,9 @@
    on the whole small-scope case space, and exports every case with the expected In-calls per round.
 2. The real worker.work is run on a real file for the exported cases (all in thorough, a seeded
    sample in quick) and its In-calls are compared with the specification's expectation.
+3. Several files on ONE worker goroutine (specs/WorkerTails.tla: the held-back tail of a file is the file's own copy,
+   mutant M_TailCopied rejected): seeded groups of two or three cases with the same worker configuration are served
+   by one worker.work call per round; each file must see exactly the calls expected for it alone.
 """
 import json
 import os
@@ -18,11 +21,19 @@ def run(ctx):
     cfg = "FileReader_quick.cfg" if ctx.tier == "quick" else "FileReader_thorough.cfg"
     res = ctx.tlc_expect_ok("FileReader", cfg, timeout=1500, deadlock=False)
     cases = res.printed
+    ctx.tlc_expect_ok("WorkerTails", "WorkerTails_ok.cfg", timeout=300, deadlock=False, name="WorkerTails/faithful")
+    mut = ctx.tlc("WorkerTails", "WorkerTails_mut.cfg", timeout=300, deadlock=False, name="WorkerTails/mutant (tail aliases the worker's buffer)")
+    if mut.ok or mut.violated != "TailsIntact":
+        raise vlib.Infra("spec mutant M_TailCopied of WorkerTails is not rejected (violated=%s)" % mut.violated)
     if len(cases) < 1000:
         raise vlib.Infra("TLC exported only %d cases" % len(cases))
     total = len(cases)
     if ctx.replay:
-        cases = [r["case"] for r in json.load(open(ctx.replay))]
+        cases = []
+        for r in json.load(open(ctx.replay)):
+            cases.append(r["case"])
+            ex = r.get("extra") or {}
+            cases += (ex.get("served_with") or []) if isinstance(ex, dict) else []
     elif ctx.tier == "quick":
         ctx.rng.shuffle(cases)
         cases = cases[:30000]
@@ -32,13 +43,15 @@ def run(ctx):
             f.write(json.dumps(c) + "\n")
     out = os.path.join(ctx.scratch, "c06_out.json")
     binary = ctx.go_test_build("plugin/input/file")
-    rc, txt = ctx.run_bin(binary, "^TestVerifC06$", env={"VERIF_CASES": path, "VERIF_OUT": out}, timeout=3000)
+    rc, txt = ctx.run_bin(binary, "^TestVerifC06$", env={"VERIF_CASES": path, "VERIF_OUT": out, "VERIF_SEED": str(ctx.seed),
+                                                              "VERIF_C06_GROUPS": "150000" if ctx.tier == "thorough" else "10000"}, timeout=3000)
     if rc != 0 or not os.path.exists(out):
         raise vlib.Infra("C06 harness failed rc=%s:\n%s" % (rc, txt[-3000:]))
     r = json.load(open(out))
     if r["executed"] != len(cases):
         raise vlib.Infra("harness executed %d of %d cases" % (r["executed"], len(cases)))
-    ctx.evaluations = r["executed"]
+    ctx.evaluations = r["executed"] + r.get("groups", 0)
+    ctx.extra["groups_of_files_served_by_one_worker"] = r.get("groups", 0)
     ctx.nontrivial = r["crossing"]
     ctx.traces_validated = r["executed"]
     ctx.exhaustive = ctx.tier == "thorough"
@@ -53,5 +66,5 @@ def run(ctx):
     recs = []
     for m in r["mismatches"] or []:
         recs.append({"kind": m["kind"], "case": m["case"], "round": m["round"], "want": m.get("want"),
-                     "got": m.get("got"), "panic": m.get("panic", "")})
+                     "got": m.get("got"), "panic": m.get("panic", ""), "extra": m.get("extra")})
     ctx.classify(recs)
